@@ -12,6 +12,15 @@ NOT_APPLICABLE = {pid: "monitor under construction in this round: no check is re
                   for pid in ["C%02d" % i for i in range(1, 19)]}
 
 PROPS = {
+    "C02": {
+        "technique": "runtime monitoring: (1) label-flow invariants over every consistent derivation of generated trees, (2) rewriter-arm observations of the applied derivation through hook events, (3) channel-cut non-interference on SQLite executions of the DP-rewritten query",
+        "level_text": "Exploration: ~25k tree configurations per quick run for the label-flow and arm monitors: for each consistent derivation, a protected table is never labelled Public/Published/DP, no node labelled Public/Published depends on a protected table without a PUP->DP reduce in between, DP labels only on reduces over PUP inputs; for the applied derivation, PUP-labelled nodes carry the privacy-unit columns, synthetic tables are substituted, DP reduces go through the DP aggregation, the root label is acceptable.",
+        "level_note": "Trusted: the brute-force enumerator and the raw(n) dataflow definition; hook events for 'which arm'.",
+        "rule": ("4 queries per generated DP world x synthetic flag x strategy x entry point; evaluation = one tree configuration; distinct non-trivial = distinct configurations."),
+        "assumptions": COMMON_ASSUME,
+        "quick": {"shards": 16, "cases": 500, "watchdog_s": 1500, "require": {"evaluations": 20000, "derivations_checked": 40000, "applied_derivations_observed": 8000}},
+        "thorough": {"shards": 16, "cases": 12000, "watchdog_s": 14400, "require": {"evaluations": 500000}},
+    },
     "C03": {
         "technique": "runtime monitoring: offline checker over the hook event log (calibration parameters per mechanism) cross-checked against the literals of the emitted IR (sigma of every Gaussian term, tau of every threshold filter) and the returned DpEvent",
         "level_text": "Exploration: ~30k DP compilations per quick run (1-3 aggregates incl. DISTINCT splits, var/std, grouped by public / private / mixed keys, joins along the privacy-unit path and with public tables, nested DP sub-queries, HAVING) x DpParameters grid (epsilon 0.01..50, delta 1e-9..0.1, thresholding shares, multiplicities, max groups 1..10) x with/without synthetic data, plus zero-budget requests. For each: every noised column of the IR must be matched by a Gaussian entry with multiplier <= sigma/C, every threshold filter by an epsilon-delta entry it satisfies (independent tau formula), and each aggregation's applied noise must fit its (epsilon, delta) under basic composition for some delta split.",
@@ -84,6 +93,15 @@ PROPS = {
         "assumptions": COMMON_ASSUME,
         "quick": {"shards": 16, "cases": 60000, "require": {"evaluations": 600000, "pairs_checked_for_injectivity": 300000, "round_trips": 100000}},
         "thorough": {"shards": 16, "cases": 3000000, "watchdog_s": 7200, "require": {"evaluations": 30000000}},
+    },
+    "C13": {
+        "technique": "runtime monitoring: the public rule pipeline (set / eliminate / select) and both entry points observed on generated relation trees; oracle = brute-force enumeration of all consistent rule assignments over the attached rules, the library's own Score visitor, and the hook event carrying the score of the derivation actually applied",
+        "level_text": "Exploration: ~25k (tree, synthetic flag, strategy, entry point) combinations per quick run, trees of 2..14 nodes (DP queries, PUP queries, sets, public-only, nested DP sub-queries, three-way joins). Checked: select's output = brute-force set (completeness, no extra), each selected derivation well-typed, the entry point succeeds iff an acceptable derivation exists, the applied derivation's score equals the maximum over acceptable consistent derivations.",
+        "level_note": "Trusted: the brute-force enumerator (tree semantics), the library's Score visitor as the definition of 'score'. Trees over 14 nodes or 20k labelings are skipped and counted.",
+        "rule": ("4 queries per generated DP world; evaluation = one tree x configuration; distinct non-trivial = distinct (query, synthetic flag, strategy, entry point)."),
+        "assumptions": COMMON_ASSUME,
+        "quick": {"shards": 16, "cases": 500, "watchdog_s": 1500, "require": {"evaluations": 20000, "scores_compared": 10000, "entry_err": 2000, "labelings_enumerated": 40000}},
+        "thorough": {"shards": 16, "cases": 12000, "watchdog_s": 14400, "require": {"evaluations": 500000}},
     },
     "C15": {
         "technique": "runtime monitoring: Hierarchy::get / get_key_value / Index compared with a 10-line reference model on exhaustive small scopes and random path maps; SQL queries naming a column present in both joined tables must not be accepted",
